@@ -273,6 +273,9 @@ def t_from_file(acc, length, shard, nshard):
                 f.write(dfa_text(Q, Sg, d, q0, F))
             for kind in ('dfa', 'nfa', 'regexp'):
                 checker = getattr(nb, 'check_{}_language_from_file'.format(kind))
+                # the same reference file is first used with a smaller length bound (a checker must not remember it)
+                first = next(iter(answers_for(kind, 's')))
+                core.lib_call(acc, checker.__name__, {'warm_up': True}, run_checker, checker, first[0], path, 1)
                 for i, (text, langf, nstates, desc) in enumerate(answers_for(kind, 's')):
                     alang = langf(length)
                     if len(alang ^ rlang) > 2 and (i + ri) % 17:
@@ -748,6 +751,7 @@ def one_nfa2dfa(acc, s, label, answer):
 
 # ---------------------------------------------------------------- 5. grammar checkers
 def expressible(g):
+    g = cfg.start_first(g)
     if not cfg.normalise_simple(g):
         return None
     lhs = {l for l, _ in g[3]}
